@@ -182,7 +182,9 @@ class Driver:
     # -- one event ------------------------------------------------------------------------------
     def apply(self, ev):
         k = ev[0]
-        rec = dict(ev=ev, delivered=True, raised=None)
+        rec = dict(ev=ev, delivered=True, raised=None, errors_before=len(self.loop.errors), time_before=self.loop.time())
+        if ev[0] != 'T' and ev[1] in self.conns:
+            rec['pending_before'] = len(self.store.pending.get(ev[1]) or [])
         q = ev[1] if k != 'T' else None
         if k == 'C':
             if q in self.conns:
@@ -262,6 +264,15 @@ class Driver:
                     self._call(rec, c.resume_writing)
                 else:
                     rec['delivered'] = False
+            elif k == 'RWPW':
+                # the buffer drains and fills again within one pass of the event loop
+                if not t.lost:
+                    if t.wpaused:
+                        self._call(rec, c.resume_writing)
+                    t.wpaused = True
+                    self._call(rec, c.pause_writing)
+                else:
+                    rec['delivered'] = False
         if k == 'T':
             for _ in range(ev[1]):
                 self._idle(rec, 1.0)
@@ -271,6 +282,8 @@ class Driver:
         rec['state'] = self.show_state()
         rec['asp'] = self.aspects()
         rec['snap'] = self.snapshot()
+        rec['gauges'] = self.gauges()
+        rec['time'] = self.loop.time()
         self.trace.append(rec)
         return rec
 
@@ -336,6 +349,14 @@ class Driver:
                            registered=sorted(ch for ch, lst in self.server.subscriptions.items() if any(x is c for x in lst)),
                            closed_at=t.closed_at)
         return snap
+
+    def gauges(self):
+        subs = {}
+        for n, l, v in samples(prometheus.SUBSCRIPTIONS):
+            subs[(l['ident'], l['chan'])] = int(v)
+        lost = sum(int(v) for n, l, v in samples(prometheus.CONNECTION_LOST) if not n.endswith('_created'))
+        return dict(conn=int(prometheus.CLIENT_CONNECTIONS._value.get()), made=int(prometheus.CONNECTION_MADE._value.get()),
+                    lost=lost, subs=subs)
 
     def show_outs(self):
         return ['%d=[%s]' % (q, ','.join(show_wframe(o, b) for o, b in self.frames_of(q))) for q in self.order]
@@ -463,6 +484,8 @@ def coq_event(ev):
         return 'CPauseW %d' % ev[1]
     if k == 'RW':
         return 'CResumeW %d' % ev[1]
+    if k == 'RWPW':
+        return 'CResumePause %d' % ev[1]
     if k == 'T':
         return 'CTick %d' % ev[1]
     raise ValueError(ev)
@@ -588,11 +611,21 @@ class Script:
         subs = row[2] or []
         k = rng.random()
         adversarial = self.role != 'benign'
+        if not adversarial:
+            # a well-behaved client only asks for what it is allowed to
+            if k < 0.30 and not subs:
+                k = 0.5
+            if 0.30 <= k < 0.45 and not subs:
+                k = 0.5
+            if k >= 0.45 and not pubs:
+                if not subs:
+                    return
+                k = 0.1
         if k < 0.30:
             c = rng.choice(subs) if subs and (not adversarial or rng.random() < 0.85) else rng.choice(CHANS)
             self.frames.append(('sub', P.msgsubscribe(self.spoof(ident, 0.05 if adversarial else 0), c)))
         elif k < 0.45:
-            c = rng.choice(subs) if subs and rng.random() < 0.7 else rng.choice(CHANS)
+            c = rng.choice(subs) if subs and (not adversarial or rng.random() < 0.7) else rng.choice(CHANS)
             self.frames.append(('unsub', P.msgunsubscribe(ident, c)))
         elif k < 0.85 or not adversarial:
             c = rng.choice(pubs) if pubs and (not adversarial or rng.random() < 0.85) else rng.choice(CHANS)
@@ -717,7 +750,7 @@ def gen_history(rng, nconn=None, async_=False, profile='mixed', table=None, nops
         if rng.random() < p_fault:
             v = rng.choice(started)
             events.append(rng.choice([['L', v], ['E', v], ['PW', v], ['RW', v], ['T', rng.choice([1, 30, 59, 60, 61])],
-                                      ['PW', v], ['T', 60]]))
+                                      ['PW', v], ['T', 60], ['RWPW', v]]))
     if async_:
         for v in started:
             for _ in range(rng.randint(0, 2)):
